@@ -4,9 +4,7 @@
     punsubscribe / publish / unsubscribe_all exactly as coded.
 
     HashMap / HashSet are association lists / duplicate-free lists; their
-    iteration order is unobservable after canonicalisation (the harness sorts),
-    except for WHICH matching pattern [publish] reports for a connection that
-    has several (HashMap order): that choice is an oracle ([publish_with]). *)
+    iteration order is unobservable after canonicalisation (the harness sorts). *)
 From Ferrous Require Import Base.Bytes Model.Types.
 Open Scope Z_scope.
 
@@ -69,8 +67,8 @@ Definition cset (c : Z) (i : subinfo) (m : cmap) : cmap := (c, i) :: cremove c m
 
 Fixpoint zmem (x : Z) (l : list Z) : bool :=
   match l with [] => false | y :: r => (x =? y) || zmem x r end.
-Fixpoint zremove (x : Z) (l : list Z) : list Z :=
-  match l with [] => [] | y :: r => if x =? y then zremove x r else y :: zremove x r end.
+Fixpoint zdrop (x : Z) (l : list Z) : list Z :=
+  match l with [] => [] | y :: r => if x =? y then zdrop x r else y :: zdrop x r end.
 
 Definition g_subs (name : bytes) (g : gmap) : list Z :=
   match alookup name g with Some l => l | None => [] end.
@@ -83,7 +81,7 @@ Definition g_add (name : bytes) (c : Z) (g : gmap) : gmap :=
 (** get_mut(name): remove c; remove the entry when it became empty *)
 Definition g_del (name : bytes) (c : Z) (g : gmap) : gmap :=
   match alookup name g with
-  | Some subs => match zremove c subs with
+  | Some subs => match zdrop c subs with
                  | [] => aremove name g
                  | subs' => aset name subs' g
                  end
@@ -91,7 +89,7 @@ Definition g_del (name : bytes) (c : Z) (g : gmap) : gmap :=
   end.
 (** unsubscribe_all: remove c from every entry, then remove the empty entries *)
 Definition g_purge (c : Z) (g : gmap) : gmap :=
-  filter (fun e => negb (is_nil (snd e))) (map (fun e => (fst e, zremove c (snd e))) g).
+  filter (fun e => negb (is_nil (snd e))) (map (fun e => (fst e, zdrop c (snd e))) g).
 
 (** SubResult (the subscription kind is determined by the operation) *)
 Record subres := { r_name : bytes; r_count : Z; r_new : bool }.
@@ -184,49 +182,14 @@ Definition punsubscribe (s : pubsub) (c : Z) (names : option (list bytes)) : lis
 Definition unsubscribe_all (s : pubsub) (c : Z) : pubsub :=
   {| ps_ch := g_purge c (ps_ch s); ps_pat := g_purge c (ps_pat s); ps_conns := cremove c (ps_conns s) |}.
 
-(** pubsub.rs:271-302 publish: (connection, None | Some matching pattern), one
-    entry per connection (the seen_connections filter) *)
+(** pubsub.rs publish (after 4d06fbe): one entry per matching subscription -
+    (connection, None) for each subscriber of the channel, then (connection, Some pattern)
+    for each subscriber of each matching pattern, in map iteration order *)
 Definition receiver := (Z * option bytes)%type.
-Fixpoint add_receivers (subs : list Z) (tag : option bytes) (seen : list Z) : list Z * list receiver :=
-  match subs with
-  | [] => (seen, [])
-  | c :: r =>
-      if zmem c seen then add_receivers r tag seen
-      else match add_receivers r tag (c :: seen) with
-           | (seen', l) => (seen', (c, tag) :: l)
-           end
-  end.
-Fixpoint pat_receivers (ch : bytes) (pats : gmap) (seen : list Z) : list receiver :=
-  match pats with
-  | [] => []
-  | (p, subs) :: r =>
-      if ps_match p ch then
-        match add_receivers subs (Some p) seen with
-        | (seen', l) => l ++ pat_receivers ch r seen'
-        end
-      else pat_receivers ch r seen
-  end.
+Definition pat_receivers (ch : bytes) (pats : gmap) : list receiver :=
+  flat_map (fun e => if ps_match (fst e) ch then map (fun c => (c, Some (fst e))) (snd e) else []) pats.
 Definition publish (s : pubsub) (ch : bytes) : list receiver :=
-  match add_receivers (g_subs ch (ps_ch s)) None [] with
-  | (seen, l) => l ++ pat_receivers ch (ps_pat s) seen
-  end.
-
-(** HashMap iteration order of [patterns] decides which matching pattern is
-    reported for a connection subscribed to several: [choice c] is the
-    implementation's pick; it is followed when admissible (c is subscribed to
-    it and it matches). *)
-Definition admissible (s : pubsub) (ch : bytes) (c : Z) (p : bytes) : bool :=
-  ps_match p ch && zmem c (g_subs p (ps_pat s)).
-Definition follow (s : pubsub) (ch : bytes) (choice : Z -> option bytes) (r : receiver) : receiver :=
-  match r with
-  | (c, Some p) => match choice c with
-                   | Some p' => if admissible s ch c p' then (c, Some p') else r
-                   | None => r
-                   end
-  | _ => r
-  end.
-Definition publish_with (choice : Z -> option bytes) (s : pubsub) (ch : bytes) : list receiver :=
-  map (follow s ch choice) (publish s ch).
+  map (fun c => (c, None)) (g_subs ch (ps_ch s)) ++ pat_receivers ch (ps_pat s).
 
 (** observers: get_subscription_info, is_subscribed, channel_subscriber_count *)
 Definition is_subscribed (s : pubsub) (c : Z) : bool :=
@@ -243,14 +206,14 @@ Inductive psop :=
 | OPublish (ch : bytes).
 Inductive psout := RSubs (l : list subres) | RNone | RRecv (l : list receiver).
 
-Definition ps_step (choice : Z -> option bytes) (s : pubsub) (o : psop) : psout * pubsub :=
+Definition ps_step (s : pubsub) (o : psop) : psout * pubsub :=
   match o with
   | OSub c l => match subscribe s c l with (r, s') => (RSubs r, s') end
   | OPSub c l => match psubscribe s c l with (r, s') => (RSubs r, s') end
   | OUnsub c l => match unsubscribe s c l with (r, s') => (RSubs r, s') end
   | OPUnsub c l => match punsubscribe s c l with (r, s') => (RSubs r, s') end
   | OUnsubAll c => (RNone, unsubscribe_all s c)
-  | OPublish ch => (RRecv (publish_with choice s ch), s)
+  | OPublish ch => (RRecv (publish s ch), s)
   end.
 Fixpoint ps_run (s : pubsub) (ops : list psop) : pubsub :=
-  match ops with [] => s | o :: r => ps_run (snd (ps_step (fun _ => None) s o)) r end.
+  match ops with [] => s | o :: r => ps_run (snd (ps_step s o)) r end.
